@@ -31,6 +31,30 @@ func genC17(t *rapid.T) RoutingCase {
 	if rapid.IntRange(0, 4).Draw(t, "defaultcontainer") == 0 {
 		c.Extra = map[string]int64{"default_container": 1}
 	}
+	if rapid.IntRange(0, 3).Draw(t, "lateroute") == 0 {
+		if c.Extra == nil {
+			c.Extra = map[string]int64{}
+		}
+		c.Extra["late_route"] = int64(rapid.IntRange(1, 64).Draw(t, "latepick"))
+	}
+	// method names that contain one another (WebDAV): a list of methods is a list, not a string
+	if rapid.IntRange(0, 3).Draw(t, "nestednames") == 0 {
+		var cands [][2]int
+		for si, sv := range c.Table.Services {
+			for ri := range sv.Routes {
+				cands = append(cands, [2]int{si, ri})
+			}
+		}
+		if len(cands) > 0 {
+			pk := cands[rapid.IntRange(0, len(cands)-1).Draw(t, "nestedroute")]
+			pair := rapid.SampledFrom([][2]string{{"PROPPATCH", "PATCH"}, {"UNLOCK", "LOCK"}, {"PATCH", "PROPPATCH"}, {"XGET", "GET"}}).Draw(t, "nestedpair")
+			sv := &c.Table.Services[pk[0]]
+			sib := sv.Routes[pk[1]]
+			sv.Routes[pk[1]].Method = pair[0]
+			sib.ID, sib.Method = sib.ID+"n", pair[1]
+			sv.Routes = append(sv.Routes, sib)
+		}
+	}
 	for _, r := range genRequests(t, c.Table, cfg, 1, 6) {
 		if !model.CleanPath(r.Path) {
 			continue
@@ -114,10 +138,12 @@ func d12(tb model.TableSpec, path string, routable, listed map[string]bool) bool
 func checkC17(c RoutingCase) (vs []*Violation) {
 	st := stats.For("C17", "TestC17")
 	recA, recB := harness.NewRecorder(), harness.NewRecorder()
-	plain, p1 := buildWith(c.Table, &harness.Options{Router: c.Router}, recA, true)
+	optA := &harness.Options{Router: c.Router}
+	plain, p1 := buildWith(c.Table, optA, recA, true)
 	// a fifth of the cases use the package-level DefaultContainer and restful.OPTIONSFilter()
 	asDefault := c.Extra["default_container"] == 1
-	filt, p2 := buildWith(c.Table, &harness.Options{Router: c.Router, OptionsFilter: true, AsDefault: asDefault}, recB, true)
+	optB := &harness.Options{Router: c.Router, OptionsFilter: true, AsDefault: asDefault}
+	filt, p2 := buildWith(c.Table, optB, recB, true)
 	if p1 != nil || p2 != nil {
 		return []*Violation{viol("", "building the table panicked: %v / %v", p1, p2)}
 	}
@@ -130,69 +156,94 @@ func checkC17(c RoutingCase) (vs []*Violation) {
 	methods = model.SortedSet(methods)
 	nontrivial := false
 	labels := []string{"router_" + c.Router}
-	for i, u := range c.Reqs {
-		if !model.CleanPath(u.Path) {
-			continue
-		}
-		where := c.Router + " URL " + strconv.Quote(u.Path)
-		routable := map[string]bool{}
-		outs := map[string]harness.Outcome{}
-		for _, m := range methods {
-			o := harness.Do(plain, recA, model.ReqSpec{Method: m, Path: u.Path}, harness.ViaDispatch, strconv.Itoa(i)+m)
-			outs[m] = o
-			if o.Panic != "" {
-				vs = append(vs, viol("", "%s %s: Dispatch panicked: %s", where, m, o.Panic))
+	phase := ""
+	probeAll := func() {
+		for i, u := range c.Reqs {
+			if !model.CleanPath(u.Path) {
 				continue
 			}
-			if len(o.Ran) > 0 || (o.Status != 404 && o.Status != 405) {
-				routable[m] = true
+			where := c.Router + " URL " + strconv.Quote(u.Path) + phase
+			routable := map[string]bool{}
+			outs := map[string]harness.Outcome{}
+			for _, m := range methods {
+				o := harness.Do(plain, recA, model.ReqSpec{Method: m, Path: u.Path}, harness.ViaDispatch, strconv.Itoa(i)+m)
+				outs[m] = o
+				if o.Panic != "" {
+					vs = append(vs, viol("", "%s %s: Dispatch panicked: %s", where, m, o.Panic))
+					continue
+				}
+				if len(o.Ran) > 0 || (o.Status != 404 && o.Status != 405) {
+					routable[m] = true
+				}
 			}
-		}
-		labels = append(labels, "routable_"+strconv.Itoa(min(len(routable), 3))+"_methods")
-		if len(routable) >= 2 {
-			nontrivial = true
-		}
-		// 405 Allow sets
-		for _, m := range methods {
-			o := outs[m]
-			if len(o.Ran) == 0 && o.Status == 405 {
-				labels = append(labels, "probe_405")
-				if got := setOf(o.Allow); setString(got) != setString(routable) {
-					vs = append(vs, viol("", "%s: 405 for %s says Allow=[%s], but the methods not answered 404/405 are [%s]", where, m, setString(got), setString(routable)))
+			labels = append(labels, "routable_"+strconv.Itoa(min(len(routable), 3))+"_methods")
+			if len(routable) >= 2 {
+				nontrivial = true
+			}
+			// 405 Allow sets
+			for _, m := range methods {
+				o := outs[m]
+				if len(o.Ran) == 0 && o.Status == 405 {
+					labels = append(labels, "probe_405")
+					if got := setOf(o.Allow); setString(got) != setString(routable) {
+						vs = append(vs, viol("", "%s: 405 for %s says Allow=[%s], but the methods not answered 404/405 are [%s]", where, m, setString(got), setString(routable)))
+					}
+				}
+			}
+			// the OPTIONS filter
+			oo := harness.Do(filt, recB, model.ReqSpec{Method: "OPTIONS", Path: u.Path}, harness.ViaDispatch, strconv.Itoa(i)+"opt")
+			if oo.Panic != "" {
+				vs = append(vs, viol("", "%s: OPTIONS with the filter panicked: %s", where, oo.Panic))
+				continue
+			}
+			if len(oo.Ran) > 0 {
+				vs = append(vs, viol("", "%s: the OPTIONS filter let a route function run: %v", where, oo.Ran))
+			}
+			allow := setOf(harness.ParseList(strings.Join(oo.Header["Allow"], ",")))
+			acam := setOf(harness.ParseList(strings.Join(oo.Header["Access-Control-Allow-Methods"], ",")))
+			want := withoutOptions(routable)
+			for name, got := range map[string]map[string]bool{"Allow": allow, "Access-Control-Allow-Methods": acam} {
+				g := withoutOptions(got)
+				if setString(g) != setString(want) {
+					if d12(c.Table, u.Path, want, g) {
+						vs = append(vs, viol("D12", "%s: OPTIONS filter lists %s=[%s], routable are [%s]: methods of a less specific WebService whose root also matches are included", where, name, setString(g), setString(want)))
+					} else {
+						vs = append(vs, viol("", "%s: OPTIONS filter lists %s=[%s], but the methods not answered 404/405 are [%s]", where, name, setString(g), setString(want)))
+					}
+				}
+			}
+			// every other method is untouched by the filter
+			for _, m := range methods {
+				if m == "OPTIONS" {
+					continue
+				}
+				o2 := harness.Do(filt, recB, model.ReqSpec{Method: m, Path: u.Path}, harness.ViaDispatch, strconv.Itoa(i)+m)
+				if o2.Key() != outs[m].Key() {
+					vs = append(vs, viol("", "%s %s: outcome changes when the OPTIONS filter is installed: {%s} vs {%s}", where, m, outs[m].Key(), o2.Key()))
 				}
 			}
 		}
-		// the OPTIONS filter
-		oo := harness.Do(filt, recB, model.ReqSpec{Method: "OPTIONS", Path: u.Path}, harness.ViaDispatch, strconv.Itoa(i)+"opt")
-		if oo.Panic != "" {
-			vs = append(vs, viol("", "%s: OPTIONS with the filter panicked: %s", where, oo.Panic))
-			continue
-		}
-		if len(oo.Ran) > 0 {
-			vs = append(vs, viol("", "%s: the OPTIONS filter let a route function run: %v", where, oo.Ran))
-		}
-		allow := setOf(harness.ParseList(strings.Join(oo.Header["Allow"], ",")))
-		acam := setOf(harness.ParseList(strings.Join(oo.Header["Access-Control-Allow-Methods"], ",")))
-		want := withoutOptions(routable)
-		for name, got := range map[string]map[string]bool{"Allow": allow, "Access-Control-Allow-Methods": acam} {
-			g := withoutOptions(got)
-			if setString(g) != setString(want) {
-				if d12(c.Table, u.Path, want, g) {
-					vs = append(vs, viol("D12", "%s: OPTIONS filter lists %s=[%s], routable are [%s]: methods of a less specific WebService whose root also matches are included", where, name, setString(g), setString(want)))
-				} else {
-					vs = append(vs, viol("", "%s: OPTIONS filter lists %s=[%s], but the methods not answered 404/405 are [%s]", where, name, setString(g), setString(want)))
-				}
+	}
+	probeAll()
+	// a route table is not frozen by having been asked: a route added to (or removed from) a
+	// registered WebService changes what is routable, and both Allow headers with it
+	if k := int(c.Extra["late_route"]); k > 0 && len(vs) == 0 {
+		var cands [][2]int
+		for si, sv := range c.Table.Services {
+			for ri := range sv.Routes {
+				cands = append(cands, [2]int{si, ri})
 			}
 		}
-		// every other method is untouched by the filter
-		for _, m := range methods {
-			if m == "OPTIONS" {
-				continue
-			}
-			o2 := harness.Do(filt, recB, model.ReqSpec{Method: m, Path: u.Path}, harness.ViaDispatch, strconv.Itoa(i)+m)
-			if o2.Key() != outs[m].Key() {
-				vs = append(vs, viol("", "%s %s: outcome changes when the OPTIONS filter is installed: {%s} vs {%s}", where, m, outs[m].Key(), o2.Key()))
-			}
+		if len(cands) > 0 && len(optA.Services) == len(c.Table.Services) && len(optB.Services) == len(c.Table.Services) {
+			pick := cands[(k-1)%len(cands)]
+			late := c.Table.Services[pick[0]].Routes[pick[1]]
+			late.ID, late.Method, late.Conds = late.ID+"late", "REPORT", nil
+			optA.Services[pick[0]].Route(harness.NewRoute(optA.Services[pick[0]], late, recA, nil))
+			optB.Services[pick[0]].Route(harness.NewRoute(optB.Services[pick[0]], late, recB, nil))
+			methods = model.SortedSet(append(methods, "REPORT"))
+			phase = " (after a REPORT route was added to a registered service)"
+			labels = append(labels, "route_added_after_first_probes")
+			probeAll()
 		}
 	}
 	st.Case(c, nontrivial, labels...)
